@@ -128,7 +128,9 @@ def run_tlc():
     dump = os.path.join(meta, "graph")
     r = subprocess.run(
         ["tlc", "-workers", "1", "-noGenerateSpecTE", "-deadlock", "-metadir", meta, "-dump", "dot,actionlabels",
-         dump, "AppLifecycle"], cwd=str(TLA), capture_output=True, text=True, timeout=600)
+         dump, "AppLifecycle"], cwd=str(TLA), capture_output=True, text=True, timeout=600,
+        # TLC unpacks its resources into java.io.tmpdir: keep that inside the (removed) metadir, not in /tmp
+        env={**os.environ, "JAVA_TOOL_OPTIONS": "-Djava.io.tmpdir=" + meta})
     out = r.stdout + r.stderr
     if "Model checking completed. No error has been found." not in out:
         shutil.rmtree(meta, ignore_errors=True)
